@@ -44,6 +44,8 @@ type Check struct {
 	Post func(p *Parent)
 	// WorkerTimeout is the watchdog for one worker process.
 	WorkerTimeout func(tier string) time.Duration
+	// Env gives extra environment variables for the workers (dir = run directory).
+	Env func(dir string) []string
 }
 
 var registry = map[string]*Check{}
@@ -555,7 +557,11 @@ func RunParent(id, tier string, seed int64, exe, raceExe string) int {
 				}
 				args := []string{"worker", id, "--tier", tier, "--seed", fmt.Sprint(seed),
 					"--shard", fmt.Sprintf("%d/%d", s, shards), "--from", fmt.Sprint(from), "--dir", p.Dir}
-				exit, timedOut, stderrPath := p.spawn(args, "w"+tag, timeout, nil)
+				var env []string
+				if ck.Env != nil {
+					env = ck.Env(p.Dir)
+				}
+				exit, timedOut, stderrPath := p.spawn(args, "w"+tag, timeout, env)
 				resPath := filepath.Join(p.Dir, "result-"+tag+".json")
 				if exit == 0 {
 					if data, err := os.ReadFile(resPath); err == nil {
@@ -650,7 +656,11 @@ func (p *Parent) confirm(id, tier string, seed, cas int64, timeout time.Duration
 	if timeout < t {
 		t = timeout
 	}
-	exit, timedOut, stderrPath := p.spawn(args, "c"+tag, t, nil)
+	var env []string
+	if p.Check.Env != nil {
+		env = p.Check.Env(p.Dir)
+	}
+	exit, timedOut, stderrPath := p.spawn(args, "c"+tag, t, env)
 	if exit == 0 {
 		// it ran to completion alone; violations it found itself are merged
 		if data, err := os.ReadFile(filepath.Join(p.Dir, "result-"+tag+".json")); err == nil {
